@@ -48,7 +48,8 @@ ID = 'C15'
 LEVEL = 'proof'
 THEORIES = ['theories/L6Past/PastFast.vo', 'theories/L6Past/PastProofs.vo',
             'theories/L6Past/PastFastProofs.vo',
-            'theories/L6Past/PastUntilProofs.vo']
+            'theories/L6Past/PastUntilProofs.vo',
+            'theories/L6Past/PastUntilClassical.vo']
 THEORIES = [t for t in THEORIES
             if os.path.exists(os.path.join(core.COQ, t[:-1]))]
 
